@@ -1,5 +1,6 @@
 import NemoVerif.Drive.Common
 import NemoVerif.Models.Match
+import NemoVerif.Models.MatchHist
 
 namespace NemoVerif.Drive.C04
 open Lean NemoVerif NemoVerif.Drive NemoVerif.Match
@@ -82,8 +83,60 @@ def stmtOfJson (j : Json) : Except String MatchStmt := do
     pure (.bare (← (← j.getObjVal? "name").getStr?) (← (← j.getObjVal? "is_lower").getBool?) args)
   | _ => throw s!"bad stmt form {form}"
 
+/-- template of a statement parameter: {"v": i} | {"cat": [i, lit]} | {"l": [..]} | {"d": [[k, tm], ..]} | a literal `Val` -/
+partial def tmOfJson (j : Json) : Except String Tm :=
+  if let .ok v := j.getObjVal? "v" then do
+    let i ← v.getNat?; pure (.var i)
+  else if let .ok v := j.getObjVal? "cat" then do
+    let a ← v.getArr?
+    if h : a.size = 2 then do
+      let i ← a[0].getNat?; let l ← valOfJson a[1]; pure (.cat i l)
+    else throw "bad cat"
+  else if let .ok v := j.getObjVal? "l" then do
+    let a ← v.getArr?; let xs ← a.toList.mapM tmOfJson; pure (.list xs)
+  else if let .ok v := j.getObjVal? "d" then do
+    let kvs ← tmKvsOfJson v; pure (.dict kvs)
+  else do
+    let v ← valOfJson j; pure (.lit v)
+where
+  tmKvsOfJson (j : Json) : Except String (List (String × Tm)) := do
+    let a ← j.getArr?
+    a.toList.mapM fun e => do
+      let p ← e.getArr?
+      if h : p.size = 2 then do
+        let k ← p[0].getStr?; let x ← tmOfJson p[1]; pure (k, x)
+      else throw "bad tm entry"
+
+def stepOfJson (j : Json) : Except String Step := do
+  match optStr j "op" with
+  | some "set" =>
+    let i ← (← j.getObjVal? "var").getNat?
+    let v ← valOfJson (← j.getObjVal? "val")
+    pure (.set i v)
+  | some "noise" => pure (.ev { kind := .plain, name := "Other", args := [("x", .int 1)] })
+  | some "ev" =>
+    let args ← kvsOfJson (← j.getObjVal? "args")
+    pure (.ev { kind := .plain, name := "Ev", args := args })
+  | _ => throw "bad step"
+
 def handle (op : String) (j : Json) : Except String Json := do
   match op with
+  | "hist" =>
+    -- `match Ev(<params>, t=<tag>)` in a flow instance per tag, over a whole history; per step: tags that advance, or "err"
+    let params ← tmOfJson.tmKvsOfJson (← j.getObjVal? "tmpl")
+    let init ← (← (← j.getObjVal? "init").getArr?).toList.mapM valOfJson
+    let tags ← (← (← j.getObjVal? "tags").getArr?).toList.mapM fun t => t.getInt?
+    let loop ← (← j.getObjVal? "loop").getBool?
+    let steps ← (← (← j.getObjVal? "steps").getArr?).toList.mapM stepOfJson
+    let rx ← rxOfJson (← j.getObjVal? "rx")
+    let runs : List (Int × List Outcome) := tags.map fun t =>
+      (t, runHist rx (fun _ => none) init
+        { stmt := bareStmt "Ev" false params [("t", .int t)], evName := "Ev", loop := loop } steps)
+    let per : List Json := (List.range steps.length).map fun n =>
+      let outs := runs.map fun (t, os) => (t, os.getD n .idle)
+      if outs.any (fun p => p.2 == .fail) then Json.str "err"
+      else Json.arr ((outs.filter (fun p => p.2 == .hit)).map fun p => Json.num (JsonNumber.fromInt p.1)).toArray
+    pure (Json.mkObj [("hits", Json.arr per.toArray)])
   | "score" =>
     let a ← valOfJson (← j.getObjVal? "arg")
     let r ← valOfJson (← j.getObjVal? "ref")
